@@ -159,13 +159,21 @@ func TestC06Rapid(t *testing.T) {
 		sawDup, sawGap := false, false
 		shape := ""
 		repeatSteps(rt, 30, func(i int) {
-			switch drawWeighted(rt, "op", []weighted{{"deliver", 16}, {"transfer", 2}, {"withdraw", 2}, {"restart", 1}, {"bridge-info", 1}}) {
+			switch drawWeighted(rt, "op", []weighted{{"deliver", 16}, {"transfer", 2}, {"withdraw", 2}, {"restart", 1}, {"bridge-info", 1}, {"reverted", 1}}) {
 			case "bridge-info":
 				// the executor registers the bridge info (for the first time, if the L2 started without it)
 				if !tc.infoSet {
 					c.Class("bridge-info-registered-after-deposits-were-processed")
 				}
 				tc.registerBridgeInfo()
+			case "reverted":
+				// the executor's transaction with the next relay runs and is rolled back as a whole (a later message
+				// of it failed, or it was a simulation): the counter stays where it was
+				if next <= uint64(len(pend)) {
+					branchL2(tc.l2, func(b *henv.L2) { b.Deliver(relayMsg(tc.executors[0].Str, pend[next-1])) })
+					tc.logf("relay of %d inside a transaction that is rolled back", next)
+					c.Class("relay-inside-a-rolled-back-transaction")
+				}
 			case "restart":
 				// the L2 is exported and restarted from that genesis in the middle of the schedule
 				tc.restartL2()
